@@ -105,5 +105,7 @@ DOMAIN_TEMPLATE = (
 SCRIPT_TAG = r"<script\b[^<]*(?:(?!<\/script>)<[^<]*)*<\/script>"
 SCRIPT_TAG_BINARY = SCRIPT_TAG.encode()
 
-SCRIPT_TAG_RE = re.compile(SCRIPT_TAG, re.I)
+# NOTE: re.A so that re.I folds ascii letters only, like the binary pattern
+# ("<ſcript>" is not a script tag)
+SCRIPT_TAG_RE = re.compile(SCRIPT_TAG, re.I | getattr(re, "A", 0))
 SCRIPT_TAG_BINARY_RE = re.compile(SCRIPT_TAG_BINARY, re.I)
